@@ -337,6 +337,24 @@ def apply_op(fam, m, op, state):
         finally:
             for p_ in frozen:
                 p_.requires_grad_(True)
+    elif op == "train_step_via_mll":
+        # the usual training loop: mode switches go through the objective object (its children are the model and the
+        # likelihood), not through the model itself
+        lik = m.likelihood
+        mll = gpytorch.mlls.ExactMarginalLogLikelihood(lik, m) if exact else gpytorch.mlls.VariationalELBO(lik, m, num_data=f.n)
+        mll.train()
+        params = [p_ for p_ in {id(p): p for p in list(m.parameters()) + list(lik.parameters())}.values() if p_.requires_grad]
+        opt = torch.optim.SGD(params, lr=0.05)
+        opt.zero_grad()
+        loss = -(mll(m(*m.train_inputs), m.train_targets) if exact else mll(m(f.X), f.y)).sum()
+        loss.backward()
+        opt.step()
+        mll.eval()
+    elif op == "load_sd_partial":
+        # a partial state dict (the kernel's entries only), strict=False: modules it does not address still depend on it
+        sd = _perturb_sd(m.state_dict())
+        part = {k_: v_ for k_, v_ in sd.items() if "covar_module" in k_}
+        m.load_state_dict(part, strict=False)
     elif op == "train_step":
         m.train()
         lik = m.likelihood
